@@ -63,6 +63,13 @@ CHECKS = {
         note="Trusted: the C helpers (vemit/vcat) write exactly the payload file; schedules are sampled by delay injection, not enumerated - the OS still owns the real interleaving; alternate-screen switches are excluded (documented pass-through).",
         design="2/C06",
     ),
+    "C07": dict(
+        category="exploration",
+        technique="exhaustive enumeration of the documented redirect spelling table x stage kind x position x capture form x target state (seeded sample in quick, complete product in thorough) + generated redirect combinations, against a placement model written from the tutorial; metamorphic equality of spellings",
+        text="Every stage writes stream- and stage-tagged lines; after the command each tagged line must be found exactly once and only where the operators say: target file (truncated / appended), next stage's stdin, capture value, or the harness's fd-level terminal (temp files dup2'ed onto fds 1 and 2, sys.stdout/stderr as write-through wrappers). All spellings of one operator must place identically; conflicts and malformed operators must raise XonshError/SyntaxError with nothing delivered; a missing-directory target must be an error. Failures are re-executed and reported only if they reproduce. Eight recorded defects.",
+        note="Trusted: the placement model (where the docs leave a reading open - explicit redirect vs pipe, merge order, stderr of non-last stages under !() - every reading is accepted); a rejected command may have created or truncated its `>` target before the conflict was seen (tolerated and counted); read-only targets use the immutable inode flag because the harness runs as root.",
+        design="2/C07",
+    ),
     "C08": dict(
         category="exploration",
         technique="stateful model-based testing (Hypothesis RuleBasedStateMachine) of file-system/$PATH mutation histories against a reference execvp search cross-checked with dash `command -v`",
